@@ -16,8 +16,26 @@ def install(sigma: str) -> None:
         from crosshair.libimpl import builtinslib as bl
     except ImportError:  # plain interpreter (replay): nothing to do
         return
+    from crosshair.tracers import NoTracing
+
     cls = bl.AnySymbolicStr
     sigma = "".join(sorted(set(sigma)))
+
+    def concrete(ch):
+        """The character as a plain str when it is fully concrete (a literal piece of a mixed string), else None.
+        Concrete characters get CPython's own answer whatever SIGMA is; only symbolic ones use the tables."""
+        with NoTracing():
+            if type(ch) is str:
+                return ch
+            try:
+                cps = ch._codepoints
+                if len(cps) == 1:
+                    cp = cps[0]
+                    if type(cp) is int:
+                        return chr(cp)
+            except BaseException:
+                return None
+            return None
 
     def members(pred):
         return [c for c in sigma if pred(c)]
@@ -29,6 +47,11 @@ def install(sigma: str) -> None:
             if len(self) == 0:
                 return ret_if_empty
             for ch in self:
+                c = concrete(ch)
+                if c is not None:
+                    if not pred(c):
+                        return False
+                    continue
                 hit = False
                 for m in ms:
                     if ch == m:
@@ -58,6 +81,12 @@ def install(sigma: str) -> None:
         first = True
         for ch in self:
             ms = id_start if first else id_cont
+            c = concrete(ch)
+            if c is not None:
+                if not (c.isidentifier() if first else ("a" + c).isidentifier()):
+                    return False
+                first = False
+                continue
             first = False
             hit = False
             for m in ms:
@@ -76,6 +105,10 @@ def install(sigma: str) -> None:
         def mapper(self):
             out = ""
             for ch in self:
+                cc = concrete(ch)
+                if cc is not None:
+                    out = out + fn(cc)
+                    continue
                 rep = None
                 for c, r in changed:
                     if ch == c:
@@ -96,10 +129,19 @@ def install(sigma: str) -> None:
             cs = list(chars)
         else:
             cs = space
+        def strippable(ch):
+            c = concrete(ch)
+            if c is not None:
+                return (c in chars) if chars is not None else c.isspace()
+            for x in cs:
+                if ch == x:
+                    return True
+            return False
+
         i, j = 0, len(self)
-        while i < j and any(self[i] == c for c in cs):
+        while i < j and strippable(self[i]):
             i += 1
-        while j > i and any(self[j - 1] == c for c in cs):
+        while j > i and strippable(self[j - 1]):
             j -= 1
         return self[i:j]
 
